@@ -4,7 +4,7 @@ import fcntl, json, os, re, shutil, subprocess, sys, time, hashlib, random
 
 VERIF = os.path.dirname(os.path.dirname(os.path.abspath(__file__)))
 REPO = os.environ.get("VERIF_REPO", "/repo")
-BUILD = os.path.join(VERIF, ".build")
+BUILD = os.environ.get("VERIF_BUILD", os.path.join(VERIF, ".build"))
 SPEC = os.path.join(VERIF, "spec")
 TLA_CP = "/opt/veriftools/tla/tla2tools.jar:/opt/veriftools/tla/CommunityModules-deps.jar"
 NCPU = os.cpu_count() or 4
@@ -46,7 +46,7 @@ def build(targets, flavour="plain"):
     try:
         t0 = time.time()
         rc, out = sh(["make", "-f", os.path.join(VERIF, "harness", "Makefile"), "-j%d" % NCPU, "FLAVOUR=" + flavour,
-                      "REPO=" + REPO, "VERIF=" + VERIF] + bins, timeout=1500, cwd=VERIF, check=False)
+                      "REPO=" + REPO, "VERIF=" + VERIF, "BROOT=" + BUILD] + bins, timeout=1500, cwd=VERIF, check=False)
         if rc != 0:
             raise MachineryError("build failed (%s):\n%s" % (flavour, out[-6000:]))
         log("[build] %s %s %.1fs" % (flavour, " ".join(targets), time.time() - t0))
@@ -72,7 +72,7 @@ def tlc(module, cfg, workers=None, timeout=600, env=None, extra=(), heap="8g", w
     if deque:
         cmd.append("-Dtlc2.tool.queue.IStateQueue=StateDeque")
     cmd += ["-cp", TLA_CP, "tlc2.TLC", "-workers", str(workers or "auto"), "-metadir", os.path.join(meta, "states"),
-            "-config", cfg] + list(extra) + [module + ".tla"]
+            "-noGenerateSpecTE", "-config", cfg] + list(extra) + [module + ".tla"]
     t0 = time.time()
     rc, out = sh(cmd, timeout=timeout, env=env, cwd=SPEC, check=False)
     dt = time.time() - t0
@@ -265,6 +265,10 @@ def load_findings():
     if not os.path.exists(p):
         return []
     return json.load(open(p))["findings"]
+
+
+def findings_for(pid):
+    return [f for f in load_findings() if f["property"] == pid]
 
 
 class Check:
